@@ -5,7 +5,6 @@ GROUPS = [
  dict(name='skip_extension', cls='P', tu='C16_skip.c', entry='h_skip_extension', enforce=['skip_extension'], replace=['skip_extension_payload'], timeout=600,
       what='skip_extension with skip_extension_payload replaced by its contract'),
 ]
-META = {'enforced_elsewhere': ['skip_extension_payload']}
 _RT = dict(cls='B', tu='C16_roundtrip.c', dfcc=False, canary='real', unwind_fn={'skip_extension_payload': 2, 'write_extension_payload': 2}, functions=['opus_packet_extensions_generate', 'opus_packet_extensions_parse',
            'opus_packet_extensions_count', 'opus_extension_iterator_next', 'write_extension', 'write_extension_payload', 'skip_extension', 'skip_extension_payload'])
 for (_n, _f, _p, _tier) in ((1, 1, 2, 'quick'), (2, 2, 1, 'quick'), (2, 1, 2, 'thorough'), (3, 2, 1, 'thorough'), (2, 3, 2, 'thorough'), (3, 3, 2, 'thorough')):
@@ -17,3 +16,5 @@ for (_l, _f, _tier) in ((3, 2, 'quick'), (4, 2, 'quick'), (5, 3, 'thorough'), (6
     GROUPS.append(dict(_RT, name='ext_arbitrary_%d' % _l, entry='h_ext_arbitrary', unwind=_l + 2, timeout=3600, tier='thorough', mem_gb=20,
         defines=['-DVERIF_RAW=%d' % _l, '-DVERIF_RAW_NF=%d' % _f], bounds='%d arbitrary bytes, %d frames' % (_l, _f),
         what='iterator / count / parse on arbitrary bytes: in-bounds results, existing frames, mutual agreement'))
+META = {'enforced_elsewhere': ['skip_extension_payload'],
+        'cex': {'tu': 'C16_roundtrip.c', 'entry': 'h_ext_arbitrary', 'unwind': 7, 'defines': ['-DVERIF_RAW=4', '-DVERIF_RAW_NF=2'], 'timeout': 1200}}
